@@ -316,6 +316,16 @@ def run(ctx):
     # component order is preserved end to end (formatter, templates, parsers, fold, accessors)
     import maps as _maps
     _maps.rule_O_ORDER(ctx)
+    # parser state: any field beyond the reviewed ones is unmodelled state (seed c06-e: an atom cache keyed by the bare name; c09-f: a stale
+    # copula index surviving reset_to)
+    import c08 as _c08
+    _c08.rule_S_FIELDS(ctx)
+    # the parsers store names and components through the two term mutators and rely on them storing verbatim / completely
+    # (seeds c12-e: push_components dropped placeholders, c12-f: set_atom_name trimmed underscores)
+    import c17 as _c17
+    _c17.rule_K_MUTATOR(ctx)
+    import tables as _t2
+    _t2.rule_T_IDENT_CLASS(ctx, _t2.Tables(ctx), models=("enum",))
     ctx.undecided = ["that parsed and original values compare equal for all values (depends on C06 and on run-time data)",
                      "nesting-dependent ambiguity; name well-formedness side conditions"]
     ctx.assumptions = ["f64 Display emits only digits and '.' for finite values in [0,1] (std guarantee)",
